@@ -311,7 +311,7 @@ func runC20(p *Program, r *Report) {
 									kind = ":IsSliceInBounds"
 								}
 								own[k+kind] = true
-								if !indexProvedBySearchIdiom(in) {
+								if !indexProvedBySearchIdiom(in) && !sliceProvedByGuards(in) && !indexProvedBySortIdiom(in) {
 									ownUnproved[k+kind] = true
 								}
 							}
@@ -1023,6 +1023,8 @@ func controlsC20() []Control {
 			Old: "\t\trulesCount := len(ownershipControls.Rules)\n\t\tif rulesCount != 1 || !utils.IsValidOwnership(ownershipControls.Rules[0].ObjectOwnership, c.debug) {", New: "\t\trulesCount := len(ownershipControls.Rules)\n\t\tisValidOwnership := utils.IsValidOwnership(ownershipControls.Rules[0].ObjectOwnership, c.debug)\n\t\tif rulesCount != 1 || !isValidOwnership {", Expect: "Rules[0]"},
 		{Name: "revert fix ea2b6ee: ListBuckets indexes an empty page", Rule: "R-C20-1", File: "backend/posix/posix.go",
 			Old: "\t\t\tif len(buckets) > 0 {\n\t\t\t\tcToken = buckets[len(buckets)-1].Name\n\t\t\t}\n", New: "\t\t\tcToken = buckets[len(buckets)-1].Name\n", Expect: "ListBuckets"},
+		{Name: "ListParts: page guard kept in a boolean, joined with || instead of &&", Rule: "R-C20-1", File: "backend/posix/posix.go",
+			Old: "\tif maxParts > 0 && len(parts) > maxParts {\n\t\tparts = parts[:maxParts]", New: "\ttruncated := maxParts > 0 || len(parts) > maxParts\n\tif truncated {\n\t\tparts = parts[:maxParts]", Expect: "ListParts"},
 		{Name: "unsigned reader grows its buffer by the declared chunk size", Rule: "R-C20-2", File: "s3api/utils/unsigned-chunk-reader.go",
 			Old: "\t\tvar buf bytes.Buffer\n", New: "\t\tvar buf bytes.Buffer\n\t\tbuf.Grow(int(chunkSize))\n", Expect: "Grow"},
 		{Name: "revert fix c423892: s3proxy uses the result before the error", Rule: "R-C20-3", File: "backend/s3proxy/s3.go",
@@ -1126,6 +1128,173 @@ func indexProvedBySearchIdiom(in ssa.Instruction) bool {
 	return len(nonNeg) > 0 && !reachable(f, nil, nonNeg)[in.Block()]
 }
 
+// indexProvedBySortIdiom: x[i] in the comparison function handed to sort.Slice / sort.SliceStable together with x
+// itself, i being one of the function's two parameters: package sort calls it with 0 <= i, j < len(x) only, and the
+// function does not reassign x.
+func indexProvedBySortIdiom(in ssa.Instruction) bool {
+	ia, ok := in.(*ssa.IndexAddr)
+	if !ok {
+		return false
+	}
+	g := in.Parent()
+	if g == nil || g.Parent() == nil || len(g.Params) != 2 {
+		return false
+	}
+	prm, ok := ia.Index.(*ssa.Parameter)
+	if !ok || prm.Parent() != g {
+		return false
+	}
+	ld, ok := ia.X.(*ssa.UnOp)
+	if !ok || ld.Op != token.MUL {
+		return false
+	}
+	fv, ok := ld.X.(*ssa.FreeVar)
+	if !ok {
+		return false
+	}
+	k := -1
+	for i, v := range g.FreeVars {
+		if v == fv {
+			k = i
+		}
+	}
+	if k < 0 {
+		return false
+	}
+	for _, b := range g.Blocks {
+		for _, x := range b.Instrs {
+			if st, isSt := x.(*ssa.Store); isSt && st.Addr == ssa.Value(fv) {
+				return false
+			}
+		}
+	}
+	n := 0
+	for _, b := range g.Parent().Blocks {
+		for _, x := range b.Instrs {
+			mc, isMC := x.(*ssa.MakeClosure)
+			if !isMC || mc.Fn != ssa.Value(g) {
+				continue
+			}
+			refs := mc.Referrers()
+			if refs == nil || len(*refs) != 1 || k >= len(mc.Bindings) {
+				return false
+			}
+			call, isCall := (*refs)[0].(*ssa.Call)
+			if !isCall {
+				return false
+			}
+			callee := call.Call.StaticCallee()
+			if callee == nil || callee.Pkg == nil || callee.Pkg.Pkg.Path() != "sort" || (callee.Name() != "Slice" && callee.Name() != "SliceStable") {
+				return false
+			}
+			if len(call.Call.Args) != 2 || call.Call.Args[1] != ssa.Value(mc) {
+				return false
+			}
+			mi, isMI := call.Call.Args[0].(*ssa.MakeInterface)
+			if !isMI {
+				return false
+			}
+			arg, isLd := mi.X.(*ssa.UnOp)
+			if !isLd || arg.Op != token.MUL || arg.X != mc.Bindings[k] {
+				return false
+			}
+			n++
+		}
+	}
+	return n == 1
+}
+
+// sliceProvedByGuards: x[:h] (or x[0:h]) where every path from the definition of h to the slice passes a test
+// that leaves 0 <= h and a test that leaves h <= len(x), x being the very value sliced. The compiler's prove pass
+// loses such a guard when it is kept in a boolean variable; the guard is there all the same.
+func sliceProvedByGuards(in ssa.Instruction) bool {
+	s, ok := in.(*ssa.Slice)
+	if !ok || s.Max != nil || s.High == nil {
+		return false
+	}
+	if s.Low != nil {
+		if k, isC := constInt(s.Low); !isC || k != 0 {
+			return false
+		}
+	}
+	h := s.High
+	f := in.Parent()
+	isLenOf := func(v ssa.Value) (ssa.Value, bool) {
+		c, ok := v.(*ssa.Call)
+		if !ok {
+			return nil, false
+		}
+		if bi, isB := c.Call.Value.(*ssa.Builtin); !isB || bi.Name() != "len" || len(c.Call.Args) != 1 {
+			return nil, false
+		}
+		return c.Call.Args[0], true
+	}
+	var nonNeg, leLen []edge
+	_, hIsLen := isLenOf(h)
+	// fact on an edge: a < b (strict) or a <= b
+	use := func(a, b ssa.Value, strict bool, e edge) {
+		if b == h {
+			if k, isC := constInt(a); isC && (k >= 0 || (strict && k == -1)) {
+				nonNeg = append(nonNeg, e)
+			}
+			if _, isLen := isLenOf(a); isLen {
+				nonNeg = append(nonNeg, e)
+			}
+		}
+		if a == h {
+			if y, isLen := isLenOf(b); isLen && sameSliceValue(y, s.X) {
+				leLen = append(leLen, e)
+			}
+		}
+	}
+	for _, ce := range condEdgesOf(f) {
+		bo := ce.binop
+		if bo == nil {
+			continue
+		}
+		okH := !ce.viaPhi || ce.exact == ce.holds.succ
+		okF := !ce.viaPhi || ce.exact == ce.fails.succ
+		switch bo.Op {
+		case token.LSS: // X < Y ; else Y <= X
+			if okH {
+				use(bo.X, bo.Y, true, ce.holds)
+			}
+			if okF {
+				use(bo.Y, bo.X, false, ce.fails)
+			}
+		case token.LEQ:
+			if okH {
+				use(bo.X, bo.Y, false, ce.holds)
+			}
+			if okF {
+				use(bo.Y, bo.X, true, ce.fails)
+			}
+		case token.GTR: // Y < X ; else X <= Y
+			if okH {
+				use(bo.Y, bo.X, true, ce.holds)
+			}
+			if okF {
+				use(bo.X, bo.Y, false, ce.fails)
+			}
+		case token.GEQ:
+			if okH {
+				use(bo.Y, bo.X, false, ce.holds)
+			}
+			if okF {
+				use(bo.X, bo.Y, true, ce.fails)
+			}
+		}
+	}
+	var from *ssa.BasicBlock
+	if hi, isI := h.(ssa.Instruction); isI {
+		from = hi.Block()
+	}
+	if len(leLen) == 0 || reachable(f, from, leLen)[in.Block()] {
+		return false
+	}
+	return hIsLen || (len(nonNeg) > 0 && !reachable(f, from, nonNeg)[in.Block()])
+}
+
 // sameSliceValue: the same SSA value, or two loads of the same field of the same struct pointer in a function that
 // never stores to that field and hands the struct to no call in between.
 func sameSliceValue(a, b ssa.Value) bool {
@@ -1136,6 +1305,27 @@ func sameSliceValue(a, b ssa.Value) bool {
 	lb, ok2 := b.(*ssa.UnOp)
 	if !ok1 || !ok2 || la.Op != token.MUL || lb.Op != token.MUL {
 		return false
+	}
+	// two loads of one local variable (a cell because a closure captures it) with no store and no call between
+	if al, isAl := la.X.(*ssa.Alloc); isAl && lb.X == la.X {
+		for _, blk := range al.Parent().Blocks {
+			for _, in := range blk.Instrs {
+				between := func() bool {
+					return (mayPrecede(la, in) && mayPrecede(in, lb)) || (mayPrecede(lb, in) && mayPrecede(in, la))
+				}
+				switch x := in.(type) {
+				case *ssa.Store:
+					if x.Addr == la.X && between() {
+						return false
+					}
+				case ssa.CallInstruction:
+					if _, isB := x.Common().Value.(*ssa.Builtin); !isB && between() {
+						return false
+					}
+				}
+			}
+		}
+		return true
 	}
 	fa, ok1 := la.X.(*ssa.FieldAddr)
 	fb, ok2 := lb.X.(*ssa.FieldAddr)
